@@ -1,8 +1,8 @@
 (* ConcFullProofs.v — the full statement of C10 for the guarded discipline and for the
    discipline the code follows; its refutation for the unguarded discipline. *)
 From Coq Require Import String List NArith Bool Arith Lia.
-From J5V.model Require Import Conc ConcSites ConcRace ConcStatement.
-From J5V.gen Require ConcGen.
+From J5V.model Require Import Conc ConcSites ConcRace ConcStatement ConcState.
+From J5V.gen Require ConcGen ConcStateGen.
 From J5V.proofs Require Import ConcProofs ConcInvProofs ConcTermProofs ConcMainProofs ConcRaceProofs.
 Import ListNotations.
 
@@ -33,18 +33,8 @@ Proof.
   - intros H. apply unguarded_has_race. apply H. exact w1_calls_ok.
 Qed.
 
+(* the cache is the only mutable state a codec call reaches: the go/types census passes
+   every check of model/ConcState.v, and the codec's entry points are the expected ones *)
 Lemma no_other_state :
-  (ConcGen.cache_fields = expected_cache_fields /\
-   ConcGen.reflector_fields = expected_reflector_fields /\
-   ConcGen.codec_fields = expected_codec_fields) /\
-  (ConcGen.codec_pkg_vars = expected_codec_pkg_vars /\
-   ConcGen.reflect_pkg_vars = expected_reflect_pkg_vars /\
-   ConcGen.schema_pkg_vars = expected_schema_pkg_vars /\
-   ConcGen.codec_pkg_var_writers = [] /\ ConcGen.reflect_pkg_var_writers = [] /\ ConcGen.schema_pkg_var_writers = []) /\
-  (only_calls ConcGen.reflector_methods = true /\ ConcGen.reflector_package_vars = []) /\
-  (only_calls ConcGen.codec_methods = true /\ ConcGen.codec_package_vars = ["Global"%string]) /\
-  ConcGen.codec_entry_points = expected_codec_entry_points /\
-  ConcGen.schema_writers = expected_schema_writers.
-Proof.
-  exact (conj struct_fields_agree (conj package_vars_agree (conj reflector_stateless (conj codec_stateless (conj codec_entry_points_agree schema_writers_agree))))).
-Qed.
+  census_ok = true /\ ConcGen.codec_entry_points = expected_codec_entry_points.
+Proof. exact (conj census_holds codec_entry_points_agree). Qed.
